@@ -7,6 +7,7 @@
 
 mod corpus;
 mod props;
+mod pyref;
 mod rng;
 mod runner;
 mod spy;
@@ -47,6 +48,11 @@ fn main() {
     }
     if args[1] == "selftest" {
         std::process::exit(selftest());
+    }
+    if args[1] == "c16-digest" && args.len() >= 4 {
+        // helper for C16's cross-process determinism comparison
+        println!("{}", serde_json::to_string(&props::c16::digests(&args[2], &args[3])).unwrap());
+        std::process::exit(0);
     }
     let id = args[1].to_uppercase();
     let Some(p): Option<Box<dyn Prop>> = props::lookup(&id) else {
